@@ -142,7 +142,7 @@ fn worker(args: &[String]) -> i32 {
     let base: u64 = args[2].parse().unwrap_or(0);
     let from: u64 = args[3].parse().unwrap_or(0);
     let to: u64 = args[4].parse().unwrap_or(0);
-    let ctx = Ctx::new();
+    let ctx = Ctx::new(matches!(def.sim, "engine_exact" | "symmetry"));
     // panics inside the code under test are caught and turned into verdicts; keep stderr quiet
     crate::sched::set_role(crate::sched::Role::S);
     crate::enginesim::install_panic_hook();
@@ -308,15 +308,18 @@ fn run_workers(def: &CheckDef, tier: &str, base: u64, runs: u64, jobs: u64) -> R
         }
     }
     let n_slices = slices.len();
+    // once a few hundred violating runs are in, running the rest adds nothing: stop respawning workers
+    let abort = std::sync::Arc::new(std::sync::atomic::AtomicBool::new(false));
     for (wid, (from, to)) in slices.into_iter().enumerate() {
         let tx = tx.clone();
+        let abort = abort.clone();
         let exe = exe.clone();
         let id = def.id.to_string();
         let tier = tier.to_string();
         std::thread::spawn(move || {
             let mut next = from;
             let mut respawns = 0;
-            while next < to {
+            while next < to && !abort.load(std::sync::atomic::Ordering::SeqCst) {
                 let mut child = match Command::new(&exe).args(["worker", &id, &tier, &base.to_string(), &next.to_string(), &to.to_string()]).stdout(Stdio::piped()).stderr(Stdio::null()).spawn() {
                     Ok(c) => c,
                     Err(_) => break,
@@ -326,6 +329,10 @@ fn run_workers(def: &CheckDef, tier: &str, base: u64, runs: u64, jobs: u64) -> R
                 let mut done = false;
                 let mut last = None;
                 for line in reader.lines() {
+                    if abort.load(std::sync::atomic::Ordering::SeqCst) {
+                        let _ = child.kill();
+                        break;
+                    }
                     let line = match line {
                         Ok(l) => l,
                         Err(_) => break,
@@ -388,6 +395,9 @@ fn run_workers(def: &CheckDef, tier: &str, base: u64, runs: u64, jobs: u64) -> R
                 }
                 if r.violation.is_some() {
                     agg.violations.push(r);
+                    if agg.violations.len() >= 400 {
+                        abort.store(true, std::sync::atomic::Ordering::SeqCst);
+                    }
                 } else if r.foreign.is_some() {
                     agg.foreign.push(r);
                 }
@@ -405,8 +415,12 @@ fn run_workers(def: &CheckDef, tier: &str, base: u64, runs: u64, jobs: u64) -> R
     if let Some(r) = dead_run {
         return Err(format!("worker process died repeatedly at run {} (seed {})", r, rng::mix(base, def.sim_id, r)));
     }
-    if agg.results != runs {
+    let aborted = abort.load(std::sync::atomic::Ordering::SeqCst);
+    if agg.results != runs && !aborted {
         return Err(format!("expected {} run results, got {}", runs, agg.results));
+    }
+    if aborted {
+        eprintln!("note: stopped early after {} violating runs ({} of {} runs executed)", agg.violations.len(), agg.results, runs);
     }
     Ok(agg)
 }
